@@ -78,7 +78,11 @@ def infer_redirection(url, recursive=True):
 
             # Basic relative url
             elif potential_target.startswith("/"):
-                target = urljoin(url, potential_target)
+                # NOTE: a url that cannot be parsed has nothing to be joined to
+                try:
+                    target = urljoin(url, potential_target)
+                except ValueError:
+                    return original_url
 
             # Idiotic youtube redirections
             elif "youtube.com/redirect?" in url:
